@@ -66,6 +66,11 @@ def _delta_crash(deadline, rng, tier):
     return witness.search('C15', 'U-PARSE', {}, tier, rng.randrange(1 << 30), deadline=deadline)
 
 
+def _depth(deadline, rng, tier):
+    from . import witness_depth
+    return witness_depth.search_all(deadline, rng, tier)     # a LIST: one obligation per shape and stage
+
+
 def _header(deadline, rng, tier):
     from . import witness_header
     return witness_header.search(deadline, rng)
@@ -98,7 +103,9 @@ SUITES = {
             ('alpha_lexer_spans', _lexa, 'none (spans are also proved: U-LEXA); kept as replay source', 'as C09.alpha_lexer_tokens')],
     'C14': [('alpha_lexer_tokens', _lexa, 'agreement of the two lexers (each is verified against its own spec)', 'as C09.alpha_lexer_tokens')],
     'C15': [('delta_front_end_crash_search', _delta_crash, 'XML dumps, recursion depth',
-             'fixed seeds, boundary runs of every token (127..1000 repeats), inputs at the token limit, repository samples, token soup of length <= 4 (thorough: <= 6)')],
+             'fixed seeds, boundary runs of every token (127..1000 repeats), inputs at the token limit, repository samples, token soup of length <= 4 (thorough: <= 6)'),
+            ('deep_nesting', _depth, 'recursion depth of the parser (unbounded stack is an assumption of the proof); the XML printer',
+             '16 shapes of valid modules (nested expressions, blocks, ifs, literals, calls, types; long lists and chains) with 3000 levels/items, through (lex, parse, header) and through the XML dumps')],
     'C17': [('header_xml', _header, 'refs_ok (no reference crosses a zone) on the parser side; XML dump',
              'random modules of 1..6 declarations of 8 kinds, public or private; header XML compared with the tree XML restricted to Public declarations')],
 }
@@ -123,6 +130,13 @@ def run(pid, tier, seed):
             err = None
         except Exception as e:
             w, err = None, str(e)[:300]
-        out.append({'suite': name, 'obligation': '%s.bounded.%s' % (pid, name), 'level': 'bounded', 'stands_in_for': not_under_contract, 'bound': bound,
-                    'budget_s': BUDGET.get(tier, 8), 'seconds': round(time.time() - t0, 1), 'executions_of_real_code': replayrun.RUNS[0] - n0, 'failing_input': w, 'error': err})
+        base = {'suite': name, 'level': 'bounded', 'stands_in_for': not_under_contract, 'bound': bound,
+                'budget_s': BUDGET.get(tier, 8), 'seconds': round(time.time() - t0, 1), 'executions_of_real_code': replayrun.RUNS[0] - n0, 'error': err}
+        if isinstance(w, list):
+            # one obligation per failing sub-case (so that a recorded finding for one shape does not hide another shape)
+            out.append(dict(base, obligation='%s.bounded.%s' % (pid, name), failing_input=None, sub_cases_failing=len(w)))
+            for sub, wit in w:
+                out.append(dict(base, obligation='%s.bounded.%s[%s]' % (pid, name, sub), failing_input=wit))
+        else:
+            out.append(dict(base, obligation='%s.bounded.%s' % (pid, name), failing_input=w))
     return out
